@@ -51,6 +51,10 @@ def main(argv):
             from .checks import wide
 
             return wide.replay(doc)
+        if str(doc.get("scenario", "")).startswith("story"):
+            from .checks import story
+
+            return story.replay(doc)
         mod = importlib.import_module(CHECKS[prop])
         rc = mod.replay(doc)
         return rc
@@ -74,6 +78,9 @@ def main(argv):
         from .checks import wide
 
         wide.run(ctx)  # magnitude sweeps with the property's oracles
+        from .checks import story
+
+        story.run(ctx)  # cross-feature histories, whole-IR oracle
         rc = mod.run(ctx)
     except SystemExit:
         raise
